@@ -158,10 +158,33 @@ def fault_cases(tier, transport):
     if tier == "thorough" and transport == "tcp":
         for seq in itertools.product(env.ALPHABET, repeat=5):
             yield (seq, transport, "call")
+    # long histories (the proxy after many faults / many healthy exchanges behaves like a fresh one)
+    n = 150 if tier == "thorough" else 40
+    for f in env.ALPHABET:
+        for kind in ("call", "batch"):
+            yield (("LONG", "repeat", f, n), transport, kind)
+            yield (("LONG", "healthy-then", f, 4 * n), transport, kind)
+            yield (("LONG", "alternate", f, n), transport, kind)
+    for kind in ("call", "notify", "batch"):
+        yield (("LONG", "cycle", "", 6), transport, kind)
+
+
+def expand(seq):
+    if not seq or seq[0] != "LONG":
+        return seq
+    _, pattern, f, n = seq
+    if pattern == "repeat":
+        return (f,) * n
+    if pattern == "healthy-then":
+        return ("OK_KA",) * n + (f, "OK_KA", f)
+    if pattern == "alternate":
+        return (f, "OK_KA") * n
+    return tuple(env.ALPHABET) * n
 
 
 def check_fault(case):
     seq, transport, kind = case
+    seq = expand(seq)
     states = set()
     viols, classes, ncalls = run_sequence(seq, transport, kind, states)
     out = Out(cls=",".join(sorted(set(classes)))[:80])
@@ -480,7 +503,8 @@ META = {
     "scripted peer; per-call token oracle; conformance leg over kernel TCP/Unix sockets",
     "rule": "every sequence of 1..3 (thorough 1..4) behaviours over {OK_KA, OK_CLOSE, REFUSE, CLOSE0, RESET, E4XX_LEN, E5XX_LEN, E5XX_NOLEN, BODILESS, TRUNC, "
     "EMPTY200, GARBAGE200, TRUNC_BIG, RESET_MID}, consumed one per connection attempt or per request read, followed by three healthy exchanges, x {Transport over TCP, UnixTransport} "
-    "x {call, notification, batch of call+notification+call}; states = distinct (cached connection state, unread bytes, script position) after a call, "
+    "x {call, notification, batch of call+notification+call}; long histories: each behaviour repeated 40 (thorough 150) times, each after 160 (600) healthy "
+    "exchanges, each alternating with healthy exchanges, and 6 cycles through the alphabet; states = distinct (cached connection state, unread bytes, script position) after a call, "
     "transitions = client calls; kernel leg: sequences of length <=2 over real loopback TCP and Unix sockets, outcome classes compared with the model; "
     "non-trivial = every sequence (each contains at least one scripted behaviour)",
     "bounds": {"quick": {"D": 3, "kernel_D": 2}, "thorough": {"D": "4 (5 for plain calls over TCP)", "kernel_D": 2}},
